@@ -9,14 +9,22 @@ pub struct FieldOutcome {
     /// `to_swift_string()` of the parsed value (includes the `:TAG:` prefix)
     pub ser: String,
     pub json: Value,
+    /// `{:?}` of the parsed value (exposes typed components such as NaiveDate)
+    pub debug: String,
+    /// the value rebuilt from its own JSON: Ok((to_swift_string, {:?}, to_value)) or the serde error
+    pub via_json: Result<(String, String, Value), String>,
 }
 
 fn run<T: SwiftField>(content: &str) -> Result<FieldOutcome, String> {
     match T::parse(content) {
-        Ok(v) => Ok(FieldOutcome {
-            ser: v.to_swift_string(),
-            json: serde_json::to_value(&v).unwrap_or(Value::Null),
-        }),
+        Ok(v) => {
+            let json = serde_json::to_value(&v).unwrap_or(Value::Null);
+            let via_json = match serde_json::from_value::<T>(json.clone()) {
+                Ok(v2) => Ok((v2.to_swift_string(), format!("{:?}", v2), serde_json::to_value(&v2).unwrap_or(Value::Null))),
+                Err(e) => Err(e.to_string()),
+            };
+            Ok(FieldOutcome { ser: v.to_swift_string(), debug: format!("{:?}", v), json, via_json })
+        }
         Err(e) => Err(e.to_string()),
     }
 }
